@@ -1405,8 +1405,15 @@ theorem splitted_copy_spec (x : NetA) (σ : AbsA) (h : ReprsA x σ) (node : Int)
   have hk' : splitNode N node = some k := hk
   have hkN : k < N := (splitNode_some hk').1
   have hlink' : g ≠ [] ∨ ∀ a, σ.V a = none := hlink
+  have hex : ∀ a W, σ.V a = some W → ∃ vs, as.get a = some vs := by
+    intro a W hV
+    rcases hlink' with hl | hl
+    · have := hattr' a
+      rw [hV] at this
+      exact this.1 hl
+    · rw [hl a] at hV; cases hV
   obtain ⟨as', hrun, hok⟩ := split_attrs_ok (vw := vw) (w := w) (as := as) k hkN (splitW w k p)
-    σ.a hadj' σ.V hattr' hlink'
+    σ.a hadj' σ.V hattr' hex
   have hs := splitRel_simple d (rel d g) N k (simple_rel d N g hg.noloop) hkN
   have hwl : (splitW w k p).length = N + 1 := by rw [splitW_length, hg.wlen]
   have hgood0 : Good d (N + 1) (graphEdges d (N + 1) (cells (N + 1) (splitRel (rel d g) N k)))
@@ -1423,6 +1430,70 @@ theorem splitted_copy_spec (x : NetA) (σ : AbsA) (h : ReprsA x σ) (node : Int)
   · intro i j hi hj
     rw [rel_graphEdges d (N + 1) _ hs i j hi hj]
     exact splitRel_congr hadj' hkN i j
+
+/-- **the remaining corner of `splitted_copy_spec`: an edgeless network** (where the
+specification cannot say which attributes exist — `set_link_attribute` creates nothing there, an
+adopted igraph object may still declare some): the copy carries exactly the names the dictionary
+of the original holds, each with the value 0 on its single link.  Together with
+`splitted_copy_spec` (a network with a link) this covers every live object. -/
+theorem splitted_copy_edgeless (x : NetA) (σ : AbsA) (h : ReprsA x σ) (node : Int) (k : Nat)
+    (hk : splitNode x.core.N node = some k) (p : Rat) (hE : x.core.graph = []) :
+    ∃ x', splittedCopyA x node p = .ok x'
+      ∧ ReprsA x' { splitAbs x.core.N k p σ with
+          V := fun a => (x.attrs.get a).map fun _ => fun _ _ => 0 }
+      ∧ x'.core.N = x.core.N + 1 := by
+  obtain ⟨core, as⟩ := x
+  obtain ⟨hc, hna, hdir, hadj, hw, hgvw, hattr⟩ := h
+  have hc' : Coherent core := hc
+  obtain ⟨d, N, g, ea, vw, w, rfl, hg⟩ := hc'.exists_form
+  have hea : ea = none := hna
+  subst hea
+  have hdir' : d = σ.d := hdir
+  have hadj' : ∀ i j, i < N → j < N → rel d g i j = σ.a i j := hadj
+  have hw' : w = σ.w := hw
+  have hk' : splitNode N node = some k := hk
+  have hkN : k < N := (splitNode_some hk').1
+  have hg0 : g = [] := hE
+  let V0 : String → Option (Nat → Nat → Rat) := fun a => (as.get a).map fun _ => fun _ _ => 0
+  have hattr0 : ∀ a, AttrOK d g as a (V0 a) := by
+    intro a
+    show AttrOK d g as a ((as.get a).map fun _ => fun _ _ => 0)
+    cases hget : as.get a with
+    | none => exact hget
+    | some vs => rw [hg0]; exact attrOK_nil d as a _
+  have hex : ∀ a W, V0 a = some W → ∃ vs, as.get a = some vs := by
+    intro a W hV
+    change (as.get a).map _ = some W at hV
+    cases hget : as.get a with
+    | none => rw [hget] at hV; cases hV
+    | some vs => exact ⟨vs, rfl⟩
+  obtain ⟨as', hrun, hok⟩ := split_attrs_ok (vw := vw) (w := w) (as := as) k hkN (splitW w k p)
+    σ.a hadj' V0 hattr0 hex
+  have hs := splitRel_simple d (rel d g) N k (simple_rel d N g hg.noloop) hkN
+  have hwl : (splitW w k p).length = N + 1 := by rw [splitW_length, hg.wlen]
+  have hgood0 : Good d (N + 1) (graphEdges d (N + 1) (cells (N + 1) (splitRel (rel d g) N k)))
+      none none (splitW w k p) :=
+    good_graphEdges d (N + 1) (by omega) _ _ hwl none (fun _ h => by cases h)
+  refine ⟨⟨form d (N + 1) (graphEdges d (N + 1) (cells (N + 1) (splitRel (rel d g) N k)))
+      none none (splitW w k p), as'⟩, ?_, reprsA_form hgood0 hdir' ?_ (by rw [hw']; rfl) rfl ?_,
+    rfl⟩
+  · show splittedCopyA ⟨form d N g none vw w, as⟩ node p = _
+    unfold splittedCopyA
+    have e0 : (form d N g none vw w).N = N := rfl
+    simp only [e0, hk', splitInit_form hg k hkN p]
+    exact congrArg Except.ok hrun
+  · intro i j hi hj
+    rw [rel_graphEdges d (N + 1) _ hs i j hi hj]
+    exact splitRel_congr hadj' hkN i j
+  · intro a
+    have := hok a
+    show AttrOK d _ as' a ((as.get a).map fun _ => fun _ _ => 0)
+    have e : (V0 a).map (splitV σ.a N k) = (as.get a).map fun _ => fun _ _ => 0 := by
+      show ((as.get a).map fun _ => fun _ _ => 0).map (splitV σ.a N k) = _
+      cases as.get a with
+      | none => rfl
+      | some vs => exact congrArg some (splitV_zero σ.a N k)
+    rw [← e]; exact this
 
 /-- the same **without `hlink`**, for everything but the attributes: whatever the dictionary of
 the original holds (also on an edgeless network), the call succeeds and — attributes set aside —
